@@ -584,5 +584,9 @@ func NormalizeAbsoluteFilePath(src string) string {
 
 // normalizeFirPath is linke NormalizeAbsoluteFilePath with a trailing slash.
 func NormalizeAbsoluteDirPath(path string) string {
+	if NormalizeAbsoluteFilePath(path) == "/" {
+		// the root directory already is its own trailing slash
+		return "/"
+	}
 	return NormalizeAbsoluteFilePath(strings.TrimRight(path, "/")) + "/"
 }
